@@ -6,7 +6,7 @@ import RtenVerif.Lemmas.Filter
 Property theorems over `RtenVerif.Model.Filter` (model of `rten-generate/src/filter.rs`).
 A candidate is an `Item` (token id, f32 bit pattern); `Item.key` is the `f32::total_cmp`
 order, `Item.nkey` the IEEE numeric order (`-0.0 = +0.0`), `Item.gt` the IEEE `>` the code
-uses in the top-K update guard, `Item.val` the exact value × 2^149.
+uses in the top-K update guard, `Item.val` the score as an `Ext` (exact value × 2^149, ±inf, NaN).
 
 Summary of what holds:
 * `TopK` (current code): never panics, returns exactly `min k n` candidates, sorted
@@ -19,10 +19,15 @@ Summary of what holds:
   behaviour is `c31_topk_late_nan_ignored` / `c31_topk_nan_kth_frozen`.
 * Before commit `fix: TopK filter no longer panics …` the code panicked iff
   `0 < n < k` (`c31_topk_unclamped_panics`).
-* `TopP` (no softmax): non-empty for non-empty input; for `p ≠ 1` the shortest prefix of the
-  descending-sorted input whose exact sum reaches `max(p, MIN_POSITIVE)`; for `p = 1` the
-  input unchanged, which is not minimal in general (`c31_topp_p1_not_minimal`).
-* `Chain` is the left fold of its filters and never panics.
+* `TopP` (no softmax; note `TopP::new` sets `normalize: false` although its doc comment says
+  softmax is the default, so `Chain::top_p` sums raw scores): non-empty for non-empty input and
+  any `p`; for `p ≠ 1` the shortest prefix of the descending-sorted input at which the f32 test
+  `cum < max(p, MIN_POSITIVE)` fails, with ±inf / NaN scores modelled by IEEE rules
+  (`c31_topp_contract`), which for finite inputs is the shortest prefix whose exact sum reaches
+  the threshold (`c31_topp_minimal`); for `p = 1` the input unchanged, which is not minimal in
+  general (`c31_topp_p1_not_minimal`).
+* `Chain` is the left fold of its filters; it panics iff it contains a `Temperature` whose
+  constructor assertion `temperature >= 0.` fails (NaN / negative), never otherwise.
 -/
 namespace RtenVerif.Filter
 
@@ -221,17 +226,29 @@ example :
       = some [⟨2, 0x40000000⟩, ⟨1, 0x3f800000⟩] ∧
     topKItems 16 1 [⟨0, 0xffc00000⟩, ⟨1, 0x3f800000⟩] = some [⟨0, 0xffc00000⟩] := by decide
 
-/-! ## T2 — TopP -/
+/-! ## T2 — TopP
+
+Scores and the running sum live in `Ext` (exact finite value, `+inf`, `-inf`, NaN) with the
+IEEE rules for `+` and `<`; the threshold is `max(p, MIN_POSITIVE)` for *every* bit pattern
+`p` (`topPThr`, `none` = `+inf`).  Nothing is defaulted: ±inf / NaN scores are answered by
+the model and compared with the implementation. -/
 
 /-- `TopP::new(p).normalize(false).filter(xs)` as modelled. -/
 abbrev topPItems (pbits : Nat) (xs : List Item) : List Item :=
   topP Item.key Item.val (pbits == oneBits) (topPThr pbits) xs
 
-theorem topPThr_pos (pbits : Nat) : 0 < topPThr pbits := by
+/-- `0 < threshold` in f32 terms: the initial `cum = 0.0` is below the threshold for every `p`
+(this is what the clamp to `MIN_POSITIVE` is for). -/
+theorem topPThr_pos (pbits : Nat) : (Ext.fin 0).lt (topPThr pbits) = true := by
   unfold topPThr minPositive
-  omega
+  split
+  · simp [Ext.lt]
+  · split
+    · simp only [Ext.lt]; apply decide_eq_true; omega
+    · split <;> simp [Ext.lt]
 
-/-- **C31.T2a** TopP never returns an empty set for non-empty input (any `p`). -/
+/-- **C31.T2a** TopP never returns an empty set for non-empty input — any `p` (including NaN,
+negative, `> 1`, infinite) and any scores (including ±inf, NaN). -/
 theorem c31_topp_nonempty (pbits : Nat) (xs : List Item) (h : xs ≠ []) : topPItems pbits xs ≠ [] := by
   unfold topPItems topP
   split
@@ -242,101 +259,219 @@ theorem c31_topp_nonempty (pbits : Nat) (xs : List Item) (h : xs ≠ []) : topPI
     rw [sortDesc_length] at this
     exact h (List.eq_nil_of_length_eq_zero (by simpa using this))
 
-/-- **C31.T2b** For `p ≠ 1.0` the result is a prefix of the input sorted descending (stable)
-by total order; if it is a proper prefix its exact sum reaches the threshold
-`max(p, MIN_POSITIVE)`; and every strictly shorter prefix is below the threshold — i.e. it is
-the shortest highest-probability prefix reaching the threshold. -/
-theorem c31_topp_minimal (pbits : Nat) (hp : pbits ≠ oneBits) (xs : List Item) :
+/-- **C31.T2b (all inputs)** For `p ≠ 1.0` the result is a prefix of the input sorted descending
+(stable) by total order; it is the *shortest* prefix at which the f32 test
+`cum_prob < threshold` fails: the test holds for the sum of every strictly shorter prefix, and
+fails for the kept prefix unless everything is kept.  (`¬ cum < thr` means `cum ≥ thr`, or
+`cum` is NaN — a NaN score stops the loop without the threshold being reached; see the
+examples below.) -/
+theorem c31_topp_contract (pbits : Nat) (hp : pbits ≠ oneBits) (xs : List Item) :
     topPItems pbits xs <+: sortDesc Item.key xs ∧
     ((topPItems pbits xs).length < xs.length →
-        topPThr pbits ≤ sumVal Item.val (topPItems pbits xs)) ∧
+        (sumE Item.val (.fin 0) (topPItems pbits xs)).lt (topPThr pbits) = false) ∧
     ∀ m, m < (topPItems pbits xs).length →
-        sumVal Item.val ((sortDesc Item.key xs).take m) < topPThr pbits := by
+        (sumE Item.val (.fin 0) ((sortDesc Item.key xs).take m)).lt (topPThr pbits) = true := by
   have h1 : (pbits == oneBits) = false := by simpa using hp
   unfold topPItems topP
   simp only [h1, Bool.false_eq_true, if_false]
   refine ⟨takeUntil_prefix _ _ _ _, ?_, ?_⟩
   · intro h
-    have := takeUntil_reaches Item.val (topPThr pbits) 0 (sortDesc Item.key xs)
+    exact takeUntil_reaches Item.val (topPThr pbits) (.fin 0) (sortDesc Item.key xs)
       (by rw [sortDesc_length]; exact h)
+  · intro m hm
+    exact takeUntil_minimal Item.val (topPThr pbits) (.fin 0) (sortDesc Item.key xs) m hm
+
+/-- Exact value × 2^149 of a finite score (only used under `Finite` hypotheses). -/
+def Item.ival (a : Item) : Int := (scaled a.bits).getD 0
+
+/-- All scores finite (what `scaled` answers for). -/
+abbrev AllFinite (xs : List Item) : Prop := ∀ x ∈ xs, (scaled x.bits).isSome = true
+
+theorem val_of_finite (x : Item) (h : (scaled x.bits).isSome = true) :
+    x.val = .fin x.ival := by
+  obtain ⟨v, hv⟩ := Option.isSome_iff_exists.mp h
+  simp [Item.val, Item.ival, extOf, hv]
+
+/-- **C31.T2b (finite probabilities, exact sums)** For a finite `p ≠ 1.0` and finite scores —
+the hypotheses name exactly the inputs on which the cumulative sum is the exact integer sum —
+the result is the shortest prefix of the descending-sorted input whose exact sum reaches
+`max(p, MIN_POSITIVE)`: a proper prefix reaches the threshold and every strictly shorter
+prefix is below it. -/
+theorem c31_topp_minimal (pbits : Nat) (hp : pbits ≠ oneBits) (xs : List Item)
+    (t : Int) (hpf : scaled pbits = some t) (hfin : AllFinite xs) :
+    topPItems pbits xs <+: sortDesc Item.key xs ∧
+    ((topPItems pbits xs).length < xs.length →
+        max t minPositive ≤ ((topPItems pbits xs).map Item.ival).sum) ∧
+    ∀ m, m < (topPItems pbits xs).length →
+        (((sortDesc Item.key xs).take m).map Item.ival).sum < max t minPositive := by
+  obtain ⟨hpre, hreach, hmin⟩ := c31_topp_contract pbits hp xs
+  have hnn : isNaN pbits = false := by
+    cases hn : isNaN pbits with
+    | false => rfl
+    | true =>
+      exfalso
+      unfold isNaN at hn
+      simp only [decide_eq_true_eq] at hn
+      have he : mag pbits / 2 ^ 23 = 255 := by unfold mag at hn ⊢; omega
+      simp [scaled, he] at hpf
+  have hthr : topPThr pbits = some (max t minPositive) := by simp [topPThr, hnn, hpf]
+  have hsorted : ∀ x ∈ sortDesc Item.key xs, x.val = .fin x.ival := fun x hx =>
+    val_of_finite x (hfin x ((mem_sortDesc Item.key).mp hx))
+  refine ⟨hpre, ?_, ?_⟩
+  · intro h
+    have h2 := hreach h
+    have hsub : ∀ x ∈ topPItems pbits xs, x.val = .fin x.ival := fun x hx =>
+      hsorted x (hpre.subset hx)
+    rw [sumE_fin Item.val Item.ival _ hsub 0, hthr] at h2
+    simp only [Ext.lt, decide_eq_false_iff_not] at h2
     omega
   · intro m hm
-    have := takeUntil_minimal Item.val (topPThr pbits) 0 (sortDesc Item.key xs) m hm
+    have h2 := hmin m hm
+    have hsub : ∀ x ∈ (sortDesc Item.key xs).take m, x.val = .fin x.ival := fun x hx =>
+      hsorted x (List.mem_of_mem_take hx)
+    rw [sumE_fin Item.val Item.ival _ hsub 0, hthr] at h2
+    simp only [Ext.lt, decide_eq_true_eq] at h2
     omega
 
 /-- For `p = 1.0` the input is returned unchanged (not even sorted). -/
 theorem c31_topp_p1_identity (xs : List Item) : topPItems oneBits xs = xs := by
   unfold topPItems topP; simp
 
-/-- **Minimality is false for `p = 1.0`.** Probabilities `[1/2, 1/2, 0]`: all three candidates
-are kept although the first two already reach 1.0. -/
+/-- **Minimality is false for `p = 1.0`.** Finite probabilities `[1/2, 1/2, 0]`: all three
+candidates are kept although the first two already reach 1.0 (so `c31_topp_minimal` cannot
+drop its hypothesis `p ≠ 1.0`). -/
 theorem c31_topp_p1_not_minimal :
-    ¬ ∀ (pbits : Nat) (xs : List Item) (m : Nat), m < (topPItems pbits xs).length →
-        sumVal Item.val ((sortDesc Item.key xs).take m) < topPThr pbits := by
+    ¬ ∀ (pbits : Nat) (xs : List Item) (t : Int), scaled pbits = some t → AllFinite xs →
+        ∀ m, m < (topPItems pbits xs).length →
+          (((sortDesc Item.key xs).take m).map Item.ival).sum < max t minPositive := by
   intro h
-  have := h oneBits [⟨0, 0x3f000000⟩, ⟨1, 0x3f000000⟩, ⟨2, 0⟩] 2 (by decide)
+  have := h oneBits [⟨0, 0x3f000000⟩, ⟨1, 0x3f000000⟩, ⟨2, 0⟩] (2 ^ 149) (by decide) (by decide)
+    2 (by decide)
   revert this; decide
 
-/-- Non-vacuity / boundary: probabilities `[1/4, 1/2, 1/4]`; `p = 0.5` keeps `[1/2]` (the loop
-stops as soon as the sum is `≥ p`), `p = 0.75` keeps two (first of the tied candidates),
-`p = 0` keeps one (threshold clamped to `MIN_POSITIVE`). -/
+/-- Non-vacuity / boundary: probabilities `[1/4, 1/2, 1/4]` are finite; `p = 0.5` keeps `[1/2]`
+(the loop stops as soon as the sum is `≥ p`), `p = 0.75` keeps two (first of the tied
+candidates), `p = 0` keeps one (threshold clamped to `MIN_POSITIVE`). -/
 example :
     let xs : List Item := [⟨0, 0x3e800000⟩, ⟨1, 0x3f000000⟩, ⟨2, 0x3e800000⟩]
+    AllFinite xs ∧ scaled 0x3f000000 = some (2 ^ 148) ∧
     topPItems 0x3f000000 xs = [⟨1, 0x3f000000⟩] ∧
     topPItems 0x3f400000 xs = [⟨1, 0x3f000000⟩, ⟨0, 0x3e800000⟩] ∧
     topPItems 0 xs = [⟨1, 0x3f000000⟩] := by decide
 
-/-! ## T3 — Chain -/
+/-- Non-finite scores are modelled, not defaulted (audit witness): on `[+inf, 1.0]` with
+`p = 0.5` the loop stops after `+inf`; a positive NaN sorts first and stops the loop at once
+(`NaN < thr` is false) although nothing was "reached"; `-inf` sorts last and never stops it;
+`+inf` followed by `-inf` is never reached because the loop has already stopped. -/
+example :
+    topPItems 0x3f000000 [⟨0, 0x7f800000⟩, ⟨1, 0x3f800000⟩] = [⟨0, 0x7f800000⟩] ∧
+    topPItems 0x3f000000 [⟨0, 0x3e800000⟩, ⟨1, 0x7fc00000⟩, ⟨2, 0x3f000000⟩] = [⟨1, 0x7fc00000⟩] ∧
+    topPItems 0x3f000000 [⟨0, 0x3e000000⟩, ⟨1, 0xff800000⟩, ⟨2, 0x3e000000⟩]
+      = [⟨0, 0x3e000000⟩, ⟨2, 0x3e000000⟩, ⟨1, 0xff800000⟩] ∧
+    topPItems 0x7fc00000 [⟨0, 0x3e800000⟩, ⟨1, 0x3f000000⟩] = [⟨1, 0x3f000000⟩] ∧
+    topPItems 0x7f800000 [⟨0, 0x3e800000⟩, ⟨1, 0x3f000000⟩] = [⟨1, 0x3f000000⟩, ⟨0, 0x3e800000⟩] := by
+  decide
 
-/-- **C31.T3** `Chain` is the (panic-propagating) left fold of its filters. -/
-theorem c31_chain_is_fold (clamp : Bool) (lanes : Nat) (fs : List Spec) (xs : List Item) :
-    chainSpec clamp lanes fs xs = fs.foldlM (fun acc f => applySpec clamp lanes f acc) xs := by
+/-! ## T3 — Chain
+
+`mul` is the f32 multiplication used by `Temperature` (abstract: the statements hold whatever
+it rounds to); `mulDriver` is the exact instance the driver evaluates inside `inDomain`. -/
+
+/-- Lemma (generic `foldlM` law, `chainSpec` is defined as that fold): unfolding of `Chain`. -/
+theorem c31_chain_is_fold (mul : Nat → Nat → Nat) (clamp : Bool) (lanes : Nat) (fs : List Spec)
+    (xs : List Item) :
+    chainSpec mul clamp lanes fs xs = fs.foldlM (fun acc f => applySpec mul clamp lanes f acc) xs := by
   unfold chainSpec chain
   rw [List.foldlM_map]
 
-theorem c31_chain_append (clamp : Bool) (lanes : Nat) (fs gs : List Spec) (xs : List Item) :
-    chainSpec clamp lanes (fs ++ gs) xs =
-      (chainSpec clamp lanes fs xs).bind (chainSpec clamp lanes gs) := by
+/-- Lemma (generic `foldlM` law). -/
+theorem c31_chain_append (mul : Nat → Nat → Nat) (clamp : Bool) (lanes : Nat) (fs gs : List Spec)
+    (xs : List Item) :
+    chainSpec mul clamp lanes (fs ++ gs) xs =
+      (chainSpec mul clamp lanes fs xs).bind (chainSpec mul clamp lanes gs) := by
   unfold chainSpec
   rw [List.map_append, chain_append]
 
-theorem c31_chain_single (clamp : Bool) (lanes : Nat) (f : Spec) (xs : List Item) :
-    chainSpec clamp lanes [f] xs = applySpec clamp lanes f xs := by
+/-- Lemma (generic `foldlM` law). -/
+theorem c31_chain_single (mul : Nat → Nat → Nat) (clamp : Bool) (lanes : Nat) (f : Spec)
+    (xs : List Item) : chainSpec mul clamp lanes [f] xs = applySpec mul clamp lanes f xs := by
   unfold chainSpec
   rw [List.map_cons, List.map_nil, chain_cons]
-  cases applySpec clamp lanes f xs <;> rfl
+  cases applySpec mul clamp lanes f xs <;> rfl
 
-/-- No single filter of the current code panics. -/
-theorem c31_filter_no_panic (lanes : Nat) (hl : 1 ≤ lanes) (f : Spec) (xs : List Item) :
-    (applySpec true lanes f xs).isSome := by
+/-- A filter description that can be constructed without tripping `Temperature::new`'s
+`assert!(temperature >= 0.)`. -/
+def Spec.valid : Spec → Bool
+  | .temp t => tempValid t
+  | _ => true
+
+/-- **Error path: the `Temperature::new` assertion.** A temperature filter panics iff its
+temperature is NaN or negative — independently of the logits; no other filter description
+can panic at all (current code). -/
+theorem c31_filter_panics_iff (mul : Nat → Nat → Nat) (lanes : Nat) (hl : 1 ≤ lanes) (f : Spec)
+    (xs : List Item) : applySpec mul true lanes f xs = none ↔ f.valid = false := by
   cases f with
-  | topK k => exact c31_topk_no_panic lanes hl k xs
-  | temp j => simp only [applySpec]; split <;> rfl
-  | _ => rfl
+  | topK k =>
+    have := c31_topk_no_panic lanes hl k xs
+    simp only [applySpec, Spec.valid]
+    constructor
+    · intro h; rw [show topKItems lanes k xs = none from h] at this; cases this
+    · intro h; cases h
+  | temp t =>
+    simp only [applySpec, Spec.valid]
+    cases tempValid t <;> simp
+    split <;> simp
+  | _ => simp [applySpec, Spec.valid]
 
-/-- What a filter returns (total function; `c31_filter_no_panic`). -/
-def applyTotal (lanes : Nat) (f : Spec) (xs : List Item) : List Item :=
-  (applySpec true lanes f xs).getD xs
+/-- **C31.T4** No constructible filter of the current code panics, for any input. -/
+theorem c31_filter_no_panic (mul : Nat → Nat → Nat) (lanes : Nat) (hl : 1 ≤ lanes) (f : Spec)
+    (hv : f.valid = true) (xs : List Item) : (applySpec mul true lanes f xs).isSome := by
+  cases h : applySpec mul true lanes f xs with
+  | some _ => rfl
+  | none => rw [(c31_filter_panics_iff mul lanes hl f xs).mp h] at hv; cases hv
 
-/-- **C31.T3/T4** With the current code a chain never panics and equals the plain left fold of
-its filters' functions: `Chain [f₁,…,fₙ] = fₙ ∘ … ∘ f₁`. -/
-theorem c31_chain_eq_foldl (lanes : Nat) (hl : 1 ≤ lanes) (fs : List Spec) (xs : List Item) :
-    chainSpec true lanes fs xs = some (fs.foldl (fun acc f => applyTotal lanes f acc) xs) := by
+/-- Negative and NaN temperatures panic, `-0.0` and `+inf` do not (spot checks of `tempValid`
+against `assert!(temperature >= 0.)`). -/
+example : tempValid 0xbf800000 = false ∧ tempValid 0x7fc00000 = false ∧ tempValid 0xff800000 = false ∧
+    tempValid 0x80000000 = true ∧ tempValid 0x7f800000 = true ∧ tempValid 0 = true := by decide
+
+/-- What a filter returns (total function on valid descriptions; `c31_filter_no_panic`). -/
+def applyTotal (mul : Nat → Nat → Nat) (lanes : Nat) (f : Spec) (xs : List Item) : List Item :=
+  (applySpec mul true lanes f xs).getD xs
+
+/-- **C31.T3/T4** With the current code a chain of constructible filters never panics and
+equals the plain left fold of its filters' functions: `Chain [f₁,…,fₙ] = fₙ ∘ … ∘ f₁`
+(for every f32 multiplication `mul`). -/
+theorem c31_chain_eq_foldl (mul : Nat → Nat → Nat) (lanes : Nat) (hl : 1 ≤ lanes) (fs : List Spec)
+    (hv : ∀ f ∈ fs, f.valid = true) (xs : List Item) :
+    chainSpec mul true lanes fs xs =
+      some (fs.foldl (fun acc f => applyTotal mul lanes f acc) xs) := by
   rw [c31_chain_is_fold]
   induction fs generalizing xs with
   | nil => rfl
   | cons f fs ih =>
     rw [List.foldlM_cons, List.foldl_cons]
-    have h := c31_filter_no_panic lanes hl f xs
+    have h := c31_filter_no_panic mul lanes hl f (hv f (List.mem_cons_self)) xs
     obtain ⟨ys, hys⟩ := Option.isSome_iff_exists.mp h
-    have : applyTotal lanes f xs = ys := by simp [applyTotal, hys]
+    have : applyTotal mul lanes f xs = ys := by simp [applyTotal, hys]
     rw [this, hys]
-    exact ih ys
+    exact ih (fun g hg => hv g (List.mem_cons_of_mem _ hg)) ys
 
-/-- The step-by-step evaluator of the driver computes `chainSpec` whenever it answers. -/
+/-- A chain containing an unconstructible temperature filter panics (whatever else it holds). -/
+theorem c31_chain_invalid_panics (mul : Nat → Nat → Nat) (lanes : Nat) (hl : 1 ≤ lanes)
+    (fs gs : List Spec) (f : Spec) (hf : f.valid = false) (hv : ∀ g ∈ fs, g.valid = true)
+    (xs : List Item) : chainSpec mul true lanes (fs ++ f :: gs) xs = none := by
+  rw [c31_chain_append, c31_chain_eq_foldl mul lanes hl fs hv xs]
+  simp only [Option.bind]
+  unfold chainSpec
+  rw [List.map_cons, chain_cons, (c31_filter_panics_iff mul lanes hl f _).mpr hf]
+  rfl
+
+/-- The step-by-step evaluator of the driver computes `chainSpec` (at the driver's exact
+multiplication) whenever it answers. -/
 theorem c31_runChain_eq (clamp : Bool) (lanes : Nat) (fs : List Spec) (xs : List Item)
     (r : Option (List Item)) (h : runChain clamp lanes fs xs = some r) :
-    r = chainSpec clamp lanes fs xs := by
+    r = chainSpec mulDriver clamp lanes fs xs := by
   induction fs generalizing xs with
   | nil => simp [runChain] at h; subst h; rfl
   | cons f fs ih =>
@@ -344,15 +479,20 @@ theorem c31_runChain_eq (clamp : Bool) (lanes : Nat) (fs : List Spec) (xs : List
     unfold chainSpec
     rw [List.map_cons, chain_cons]
     split at h
-    · cases hf : applySpec clamp lanes f xs with
+    · cases hf : applySpec mulDriver clamp lanes f xs with
       | none => simp [hf] at h; subst h; rfl
       | some ys => simp only [hf] at h; exact ih ys h
     · cases h
 
 /-- Before the fix a chain could panic: top-P keeps one candidate, then `TopK::new(2)`. -/
-example : chainSpec false 16 [.topP 0x3f000000, .topK 2]
+example : chainSpec mulDriver false 16 [.topP 0x3f000000, .topK 2]
       [⟨0, 0x3e800000⟩, ⟨1, 0x3f000000⟩, ⟨2, 0x3e800000⟩] = none ∧
-    chainSpec true 16 [.topP 0x3f000000, .topK 2]
+    chainSpec mulDriver true 16 [.topP 0x3f000000, .topK 2]
       [⟨0, 0x3e800000⟩, ⟨1, 0x3f000000⟩, ⟨2, 0x3e800000⟩] = some [⟨1, 0x3f000000⟩] := by decide
+
+/-- Temperature 2.0 halves exactly; temperature −1.0 panics. -/
+example : chainSpec mulDriver true 16 [.temp 0x40000000] [⟨0, 0x3f800000⟩, ⟨1, 0xc0000000⟩]
+      = some [⟨0, 0x3f000000⟩, ⟨1, 0xbf800000⟩] ∧
+    chainSpec mulDriver true 16 [.sort, .temp 0xbf800000] [⟨0, 0x3f800000⟩] = none := by decide
 
 end RtenVerif.Filter
